@@ -283,6 +283,28 @@ def node_array_operations(inp):
     return {'violates': bool(bad), 'detail': bad[:5], 'n_bad': len(bad)}
 
 
+def memory_time_parsing(inp):
+    """TempoParameters(dt, tcut = K dt written as float literals / products): the memory length is K steps (the nearest integer of tcut/dt),
+    whatever floating-point noise the quotient carries; and dkmax = K gives tcut = K dt"""
+    from decimal import Decimal
+    import oqupy
+    bad = []
+    cases = [('0.04', '0.28'), ('0.01', '0.07'), ('0.1', '0.3'), ('0.05', '0.35'), ('0.1', '0.5'), ('0.4', '4.0'), ('0.2', '0.33'), ('0.1', '0.26')]
+    for dts, tcs in cases:
+        dt, tc = float(dts), float(tcs)
+        want = int((Decimal(tcs) / Decimal(dts)).to_integral_value(rounding='ROUND_HALF_EVEN'))
+        p = oqupy.TempoParameters(dt=dt, tcut=tc, epsrel=1e-6)
+        if p.dkmax != want:
+            bad.append({'dt': dts, 'tcut': tcs, 'dkmax': p.dkmax, 'required': want})
+    p = oqupy.TempoParameters(dt=0.1, tcut=3 * 0.1, epsrel=1e-6)
+    if p.dkmax != 3:
+        bad.append({'dt': '0.1', 'tcut': '3*0.1', 'dkmax': p.dkmax, 'required': 3})
+    p = oqupy.TempoParameters(dt=0.1, dkmax=4, epsrel=1e-6)
+    if p.dkmax != 4 or abs(p.tcut - 0.4) > 1e-12:
+        bad.append({'dt': '0.1', 'dkmax given': 4, 'dkmax': p.dkmax, 'tcut': p.tcut})
+    return {'violates': bool(bad), 'detail': bad}
+
+
 def cells_vs_quadrature(inp):
     """the cells a correlations object returns against direct integration of its own correlation function (owned by C12)"""
     from replay.c12 import cells_vs_quadrature as f
@@ -290,4 +312,4 @@ def cells_vs_quadrature(inp):
 
 
 # thorough tier (bounded native sweeps): (function, inputs, obligation of the open finding it reproduces or None)
-THOROUGH = [('independent_boson', {}, None), ('svd_sweep_parameters', {}, None), ('node_array_operations', {}, None)]
+THOROUGH = [('independent_boson', {}, None), ('svd_sweep_parameters', {}, None), ('node_array_operations', {}, None), ('memory_time_parsing', {}, None)]
